@@ -43,7 +43,7 @@ impl Check for C03 {
     fn rule(&self) -> String {
         "seeded loop- and growth-biased Push programs (block duplication, exec dup/swap/push, nesting <= 8 generated structurally plus the whole program wrapped 65..=1200 blocks deep in 1/200 of the runs, i64/f64 extremes, \
          capacities 0..=12 / 64, all inputs bound) run harness-stepped (<= 400 steps + nesting depth) and by the real loop for a sweep of \
-         step limits (0..=k for a seeded k <= 60, T-1, T, T+1, 10^4, usize::MAX); plus, in 1/700 of the runs, LONG executions: a self-re-creating loop [exec.dup [body exec.dup]] run by the real loop for 1000..=30000 steps (some bodies print > 64 KiB per step) and compared with a model-only run at the end, and ONE very long evaluation of 6*10^6 (quick) / 6*10^7 (thorough) steps (evaluation must not depend on elapsed time); monitored: returns (catch_unwind + watchdog), \
+         step limits (0..=k for a seeded k <= 60, T-1, T, T+1, 10^4, usize::MAX); plus, in 1/700 of the runs, LONG executions: a self-re-creating loop [exec.dup [body exec.dup]] run by the real loop for 1000..=30000 steps (some bodies print > 64 KiB per step) and compared with a model-only run at the end, and ONE very long evaluation of 6*10^6 (quick) / 2*10^7 (thorough) steps (evaluation must not depend on elapsed time); monitored: returns (catch_unwind + watchdog), \
          Err only for overflow and only where the model says a stack would overflow, every stack size <= its maximum at every \
          step boundary, state(L) == stepped state after min(L,T) steps; non-trivial iff >= 5 steps ran and (a fatal overflow \
          struck or the exec stack grew beyond its initial size); distinct = distinct scenario fingerprints"
@@ -60,7 +60,7 @@ impl Check for C03 {
     fn generate(&self, g: &mut Xo, tier: Tier, run: u64) -> VmSc {
         if run == 7 {
             // one very long evaluation per invocation (millions of steps = a sizeable fraction of a second)
-            return vmgen::gen_very_long(g, if tier == Tier::Quick { 6_000_000 } else { 60_000_000 });
+            return vmgen::gen_very_long(g, if tier == Tier::Quick { 6_000_000 } else { 20_000_000 });
         }
         if run % 700 == 349 {
             // a long execution (1000..=30000 steps) of a self-re-creating loop
@@ -95,7 +95,7 @@ impl Check for C03 {
     }
 
     fn watchdog_secs(&self) -> u64 {
-        120
+        240 // (the very long evaluation takes tens of seconds at the thorough tier; everything else microseconds)
     }
 
     fn hang_is_violation(&self) -> bool {
